@@ -78,9 +78,24 @@ let ints_str l = String.concat "," (List.map string_of_int l)
 
 let samples = ref 0
 
+(* The case file is read completely before any case is judged: build/C11_c11.cases is shared by
+   every C11 run, and a concurrently started run truncates it under a long-running (thorough) one. *)
+let read_all_lines (path : string) : string list =
+  let ic = open_in_bin path in
+  let n = in_channel_length ic in
+  let s = really_input_string ic n in
+  close_in ic;
+  List.filter (fun l -> String.length l > 0 && l.[0] <> '#') (String.split_on_char '\n' s)
+
 let () =
   let path = Sys.argv.(1) in
-  iter_lines path (fun line ->
+  let guarded f line =
+    (* a case the driver cannot process is a broken correspondence for that case, not a crash *)
+    try f line with
+    | Stack_overflow -> fail (List.hd (String.split_on_char '\t' line)) "CORR" "driver_exception" "Stack_overflow"
+    | Out_of_memory -> fail (List.hd (String.split_on_char '\t' line)) "CORR" "driver_exception" "Out_of_memory"
+    | e -> fail (List.hd (String.split_on_char '\t' line)) "CORR" "driver_exception" (Printexc.to_string e) in
+  List.iter (guarded (fun line ->
       let f = split_tabs line in
       let id = f.(0) and cls = f.(1) in
       incr cases;
@@ -231,5 +246,5 @@ let () =
               | _ -> failwith "bad search kind"
             end
           | _ -> failwith ("bad search record " ^ s))
-        (split_on '|' f.(6)));
+        (split_on '|' f.(6)))) (read_all_lines path);
   finish ()
